@@ -54,7 +54,7 @@ func init() {
 		Rule: "each case = one chain on two real block managers (proposer, follower) with n in 1..7 validators and 3-6 heights; " +
 			"per height: a candidate proposed over PRNG-chosen precommit timestamps (count k with 2n/3 < k <= n, odd and even, median targeted at parent.ts-1 / parent.ts / parent.ts+1 / far above, even counts with odd sums), " +
 			"imported unmodified and under ~30 mutations of the exported header/body (height +-1/+-2/0, prev id bit flip/grand-parent/zero/short/sibling, version 0/1/3, timestamp median+-1/parent/parent-1/0, " +
-			"re-signed vote lists with another median or another count parity, pairs of these); some chains end with a transaction that makes the state require block version 3. " +
+			"re-signed vote lists with another median or another count parity, pairs of these); children imported on top of an imported-but-NOT-finalized candidate (median equal to the unfinalized parent's timestamp, between the last finalized block's and the parent's, and above it; height/prev/timestamp mutants of those); some chains end with a transaction that makes the state require block version 3. " +
 			"Oracle = model from the statement (own median by sorting; height = parent+1; prev id = parent id; version = required; above height 1 ts = median and ts > parent.ts): accepted => model-valid; model-valid unmodified candidate => accepted. " +
 			"Non-trivial = distinct candidate (by encoded bytes) that the model calls invalid, derived from an otherwise valid block.",
 		MinNonTrivial: func(t string) int {
@@ -69,6 +69,7 @@ func init() {
 			"mutant_rejected_revote", "mutant_rejected_pair", "revote_same_median_accepted",
 			"median_odd_count", "median_even_count", "median_even_odd_sum", "version_required_rejected",
 			"import_by_reader", "import_by_blockdata",
+			"deep_invalid_rejected_above_finalized_ts", "deep_valid_accepted", "deep_mutant_rejected",
 		},
 		Assumptions: []string{
 			"vote signatures are kept valid (C05 covers forged votes); ECDSA recovery and SHA3 trusted",
@@ -152,16 +153,17 @@ func valid(c *cand, nmap []known, required int) string {
 // ---- chain driver ----
 
 type chain struct {
-	c       *ev.Ctx
-	r       *rand.Rand
-	t       *bfix.QuietT
-	n       int
-	wallets []module.Wallet
-	P, F    *test.Node
-	ci      int
-	nImport int
-	stalled bool
-	near    bool // keep the block timestamp within the tx timestamp window of the parent's
+	c        *ev.Ctx
+	r        *rand.Rand
+	t        *bfix.QuietT
+	n        int
+	wallets  []module.Wallet
+	P, F     *test.Node
+	ci       int
+	nImport  int
+	stalled  bool
+	deepDone bool
+	near     bool // keep the block timestamp within the tx timestamp window of the parent's
 }
 
 func genesisFor(ws []module.Wallet) string {
@@ -468,8 +470,12 @@ func (ch *chain) height(parent, grand module.Block, required int, mutate bool) b
 	h := parent.Height() + 1
 	pts := parent.Timestamp()
 
+	var proposeOn func(pid []byte, vs *voteSet) (module.BlockCandidate, *gblock.V2HeaderFormat, *gblock.V2BodyFormat, bool)
 	propose := func(vs *voteSet) (module.BlockCandidate, *gblock.V2HeaderFormat, *gblock.V2BodyFormat, bool) {
-		bc, err, ok := bfix.Propose(ch.P.BM, parent.ID(), vs.cvl, cbWait)
+		return proposeOn(parent.ID(), vs)
+	}
+	proposeOn = func(pid []byte, vs *voteSet) (module.BlockCandidate, *gblock.V2HeaderFormat, *gblock.V2BodyFormat, bool) {
+		bc, err, ok := bfix.Propose(ch.P.BM, pid, vs.cvl, cbWait)
 		if !ok {
 			c.Notef("chain %d: propose callback timed out", ch.ci)
 			c.Count("watchdog_propose", 1)
@@ -663,6 +669,112 @@ func (ch *chain) height(parent, grand module.Block, required int, mutate bool) b
 		}
 		if sibBC != nil {
 			sibBC.Dispose()
+		}
+	}
+
+	// ---- descendants of the still unfinalized candidate ----
+	// The importer's parent is the block named by prev id, which need not be the
+	// last finalized block: children (and grand-children) are imported on top of
+	// imported-but-not-finalized blocks, with medians between the last finalized
+	// block's timestamp and the unfinalized parent's (must be rejected) and above
+	// the parent's (must be accepted).
+	if mutate && h >= 2 && !ch.near && (!ch.deepDone || r.Intn(2) == 0) {
+		ch.deepDone = true
+		type lvl struct{ pbc, fbc module.BlockCandidate }
+		var open []lvl
+		par := known{id: fbc.ID(), height: fbc.Height(), ts: fbc.Timestamp()}
+		var parBlk module.Block = bc
+		// one level only: goloop resolves a block's voters through the finalized
+		// chain (GetVoters -> GetBlockByHeight), so a grand-child of the last
+		// finalized block can neither be proposed nor imported ("fail to get validators")
+		levels := 1
+		for lv := 0; lv < levels && !ch.stalled && !c.Stopped(); lv++ {
+			mk := func(m int64) (*voteSet, int) {
+				k := ch.randomK()
+				return ch.votesFor(parBlk, ch.pickVoters(k), ch.timestamps(k, m), int32(r.Intn(3))), k
+			}
+			cdOf := func(f *gblock.V2HeaderFormat, v *voteSet) *cand {
+				return &cand{version: f.Version, height: f.Height, prevID: f.PrevID, ts: f.Timestamp, voteTS: v.ts, votesFor: par.id}
+			}
+			targets := []int64{par.ts}
+			if par.ts-pts >= 2 {
+				targets = append(targets, pts+1+r.Int63n(par.ts-pts-1))
+			}
+			for _, m := range targets {
+				cvs, _ := mk(m)
+				cbc, chf, cbf, ok := proposeOn(par.id, cvs)
+				if !ok {
+					break
+				}
+				cd := cdOf(chf, cvs)
+				name := fmt.Sprintf("deep%d/median=unfinalized-parent.ts", lv+1)
+				if m < par.ts {
+					name = fmt.Sprintf("deep%d/finalized.ts<median<unfinalized-parent.ts", lv+1)
+				}
+				if o, ok := check(name, "deep", chf, cbf, cd, true); ok {
+					if o.Accepted() {
+						o.BC.Dispose()
+					} else if valid(cd, nmap, required) != "" {
+						c.Count("deep_invalid_rejected", 1)
+						if m > pts {
+							c.Count("deep_invalid_rejected_above_finalized_ts", 1)
+						}
+					}
+				}
+				cbc.Dispose()
+			}
+			if ch.stalled || c.Stopped() {
+				break
+			}
+			cvs, _ := mk(par.ts + 1 + r.Int63n(20))
+			cbc, chf, cbf, ok := proposeOn(par.id, cvs)
+			if !ok {
+				break
+			}
+			cd := cdOf(chf, cvs)
+			o, ok := check(fmt.Sprintf("deep%d/valid", lv+1), "deep", chf, cbf, cd, true)
+			if !ok || !o.Accepted() {
+				cbc.Dispose()
+				break
+			}
+			c.Count("deep_valid_accepted", 1)
+			open = append(open, lvl{cbc, o.BC})
+			// a few mutants of the valid descendant
+			type mu struct {
+				n string
+				f func(f *gblock.V2HeaderFormat)
+			}
+			for _, x := range []mu{
+				{"height+1", func(f *gblock.V2HeaderFormat) { f.Height++ }},
+				{"height-1", func(f *gblock.V2HeaderFormat) { f.Height-- }},
+				{"prev=finalized", func(f *gblock.V2HeaderFormat) { f.PrevID = parent.ID() }},
+				{"prev=finalized,height-1", func(f *gblock.V2HeaderFormat) { f.PrevID = parent.ID(); f.Height = h }},
+				{"ts=parent", func(f *gblock.V2HeaderFormat) { f.Timestamp = par.ts }},
+				{"ts=median+1", func(f *gblock.V2HeaderFormat) { f.Timestamp++ }},
+			} {
+				mhf := *chf
+				x.f(&mhf)
+				mcd := cdOf(&mhf, cvs)
+				mo, ok := check(fmt.Sprintf("deep%d/%s", lv+1, x.n), "deep", &mhf, cbf, mcd, false)
+				if !ok {
+					break
+				}
+				if mo.Accepted() {
+					mo.BC.Dispose()
+				} else if valid(mcd, nmap, required) != "" {
+					c.Count("deep_mutant_rejected", 1)
+				}
+			}
+			nmap = append(nmap, known{id: cbc.ID(), height: cbc.Height(), ts: cbc.Timestamp()})
+			par = known{id: cbc.ID(), height: cbc.Height(), ts: cbc.Timestamp()}
+			parBlk = cbc
+			if lv == 1 {
+				c.Count("deep_level2_reached", 1)
+			}
+		}
+		for i := len(open) - 1; i >= 0; i-- {
+			open[i].fbc.Dispose()
+			open[i].pbc.Dispose()
 		}
 	}
 
